@@ -368,6 +368,9 @@ func checkValue(c Case) error {
 		if herr := gen.AppendHazard(d.V); herr != nil {
 			return stats.Failf(key("decoded-aliasing"), "%s: the decoded value is equal now but aliases itself: %v\n enc %s", e.Name, herr, hx(enc))
 		}
+		if herr := gen.SharedMark(d.V); herr != nil {
+			return stats.Failf(key("shared-mark"), "%s: %v\n enc %s", e.Name, herr, hx(enc))
+		}
 		// (2b) canonical re-encoding
 		enc3, err, panicked := safeEncode(e, d.V)
 		if panicked || err != nil {
